@@ -66,6 +66,9 @@ def run(ctx):
         ctx.guard(tokenizer_context_free, ctx, cfg, fs)
         ctx.guard(c08.keep_only, ctx, lambda: c08.matched(ctx, cfg, fs), lambda o: 'failure-is-first-outcome' in o.key or 'inner-failure-is-final' in o.key, 'R.scope-restore')
         ctx.guard(consumers.accept_sets, ctx, cfg, fs, 'A.accept-sets')
+        import c12
+        # one global short-name registry: a letter that is a flag in one command and an argument in another is reported, not split (shared with C02)
+        ctx.guard(c12.walker_rules, ctx, cfg, fs, 'T.tokenizer', {'collect_shorts': c12.WALKERS['collect_shorts']})
         import c10
         # a word the tokenizer could not split is not claimed by anybody: its error leaves run_inner in every build configuration
         ctx.guard(c08.keep_only, ctx, lambda: c10.ambiguity(ctx, cfg, fs), lambda o: True, 'T.tokenizer')
